@@ -340,7 +340,8 @@ mutual
 inductive Cfg
   | leaf (l : Leaf) (sc : Scope)
   | group (agg : Bool) (sc : Scope) (ms : CfgL)
-  | filter (c : Cond) (sc : Scope) (t : Cfg) (f : Option Cfg)
+  | filter (c : Cond) (sc : Scope) (t : Cfg) (f : Cfg)
+  | absent                                       -- a missing `else` entry
 inductive CfgL
   | nil
   | cons (c : Cfg) (l : CfgL)
@@ -401,16 +402,14 @@ def Cfg.compile (side : Side) : Cfg → Option (Option T)
     match t.compile side with
     | none => none
     | some tt =>
-      let ff : Option (Option T) := match f with
-        | none => some none
-        | some f => f.compile side
-      match ff with
+      match f.compile side with
       | none => none
       | some ff =>
         match scopeSel (true, true) sc side with
         | none => none
         | some false => some none
         | some true => some (some (.filter c (tt.getD .nop) (ff.getD .nop)))
+  | .absent => some none
 /-- `fifo.groupFromJSON`: children without a modifier for this side are not added. -/
 def CfgL.compile (side : Side) : CfgL → Option TL
   | .nil => some .nil
@@ -426,5 +425,84 @@ def Cfg.install (c : Cfg) : Option State :=
   match c.compile .req, c.compile .res with
   | some q, some s => some ⟨q.getD .nop, s.getD .nop⟩
   | _, _ => none
+
+/-! ### Specification side: initial state, and the report a history calls for
+
+`T.spec side t ms` is the report the property demands of (one side of) a tree after the
+exchanges `ms` (those since the last reset), written denotationally: an exchange *reaches* a
+node iff the filter conditions on the path select the node's branch and, inside a group that
+does not aggregate errors, no earlier sibling returned an error for it; a verifier reports, in
+exchange order, every non-API exchange that reaches it and does not meet its expectation
+(`check`); a pingback verifier reports once unless a matching non-API exchange reached it;
+reports are concatenated in tree order, one entry per failure (depth one). -/
+
+mutual
+/-- The initial state of every verifier in the tree, on both branches of every filter. -/
+def T.clear : T → T
+  | .ver k _ => .ver k []
+  | .ping s h p q _ => .ping s h p q true
+  | .nop => .nop
+  | .fail => .fail
+  | .group agg ms => .group agg ms.clear
+  | .filter c t f => .filter c t.clear f.clear
+def TL.clear : TL → TL
+  | .nil => .nil
+  | .cons t l => .cons t.clear l.clear
+end
+
+mutual
+/-- Does the node return an error for this exchange (independent of the verifiers' state). -/
+def T.errors (side : Side) (m : Msg) : T → Bool
+  | .ver _ _ => false
+  | .ping .. => false
+  | .nop => false
+  | .fail => true
+  | .group agg ms => ms.errors side m agg
+  | .filter c t f => if c.holds side m then t.errors side m else f.errors side m
+def TL.errors (side : Side) (m : Msg) (agg : Bool) : TL → Bool
+  | .nil => false
+  | .cons t l => if t.errors side m && !agg then true else (t.errors side m || l.errors side m agg)
+end
+
+def leafSpec (side : Side) (k : Kind) (ms : List Msg) : List Bytes :=
+  (ms.filter (fun m => !m.api)).filterMap (check side k)
+
+def pingSeen (s h p q : Bytes) (ms : List Msg) : Bool := ms.any (fun m => !m.api && pingMatch s h p q m)
+
+def pingSpec (s h p q : Bytes) (ms : List Msg) : List Bytes :=
+  if pingSeen s h p q ms then [] else [pingErr s h p q]
+
+/-- Report order of a filter's two branches: the order in which the code visits them (the
+property does not prescribe one). -/
+def elseFirst (side : Side) : Bool := (verifyVisits side).head? == some false
+
+mutual
+def T.spec (side : Side) : T → List Msg → List Bytes
+  | .ver k _, ms => leafSpec side k ms
+  | .ping s h p q _, ms => pingSpec s h p q ms
+  | .nop, _ => []
+  | .fail, _ => []
+  | .group agg l, ms => l.spec side agg ms
+  | .filter c t f, ms =>
+    let st := t.spec side (ms.filter (fun m => c.holds side m))
+    let sf := f.spec side (ms.filter (fun m => !c.holds side m))
+    if elseFirst side then sf ++ st else st ++ sf
+def TL.spec (side : Side) (agg : Bool) : TL → List Msg → List Bytes
+  | .nil, _ => []
+  | .cons t l, ms => t.spec side ms ++ l.spec side agg (ms.filter (fun m => agg || !t.errors side m))
+end
+
+def State.clear (s : State) : State := ⟨s.req.clear, s.res.clear⟩
+
+/-- The report demanded after the exchanges `ms`: request side, then response side. -/
+def State.spec (s : State) (ms : List Msg) : List Bytes := s.req.spec .req ms ++ s.res.spec .res ms
+
+/-- The exchanges of a history since its last reset. -/
+def sinceStep (acc : List Msg) : Op → List Msg
+  | .traffic m => acc ++ [m]
+  | .query => acc
+  | .reset => []
+
+def sinceReset (h : List Op) : List Msg := h.foldl sinceStep []
 
 end Martian.Verify
